@@ -229,7 +229,7 @@ func newMachine(prop string) *machine {
 	m := &machine{prop: prop, E: E, s: NewSvc(E), defs: map[string]bool{}, binds: map[string]*mBinding{},
 		owners: map[int]int{}, wd: map[int]sdk.AccAddress{}, vol: map[string]uint64{}, earned: map[int]coins{},
 		ctxByID: map[string]*mCtx{}, reqByID: map[string]*mReq{}, stranded: coins{}, cl: map[string]int{}}
-	m.rates = map[string]string{"btc": "2", "eth": "0.5"}
+	m.rates = map[string]string{"btc": "2", "eth": "0.5", "usdt": "3"} // usdt sorts after the base denom: a fee of two denoms is debited base denom first
 	SetRates(m.rates)
 	p := m.s.Params()
 	m.params = ParamSpec{Tax: decString(p.ServiceFeeTax), Slash: decString(p.SlashFraction), Multiple: p.MinDepositMultiple,
@@ -1509,6 +1509,24 @@ func (m *machine) doBlock(dt int64) error {
 			// paused by the module: the consumer could not pay
 			m.cl["funds-pause"]++
 			pausedFor[c.consumer] = true
+			// the shape in which a charge can half happen: the fee has a part in the base denom that the consumer can
+			// pay and a part in a denom that is debited after it (coins are debited in denom order) and that the consumer
+			// does not hold at all
+			if el := m.eligibleProviders(c, now); len(el) > 0 {
+				fee := coins{}
+				for _, w := range el {
+					fee.add(w.denom, w.fee)
+				}
+				bal := m.s.Balances(m.user(c.consumer))
+				if f := fee[baseDenom]; f != nil && f.Sign() > 0 && bal.AmountOf(baseDenom).BigInt().Cmp(f) >= 0 {
+					for d, f := range fee {
+						if d > baseDenom && f.Sign() > 0 && bal.AmountOf(d).IsZero() {
+							m.cl["funds-pause-with-base-part-payable-and-a-later-denom-not-held"]++
+							break
+						}
+					}
+				}
+			}
 			if c.module {
 				cause := "insufficient balances"
 				if m.rateMissing(c) {
@@ -1540,7 +1558,7 @@ func (m *machine) doBlock(dt int64) error {
 	if m.c07() {
 		for u := range m.E.Users {
 			hasNew := issuedFor[u]
-			for _, d := range []string{baseDenom, "btc", "eth"} {
+			for _, d := range []string{baseDenom, "btc", "eth", "usdt"} {
 				k := m.user(u).String() + "/" + d
 				g, w := got.Bal[k], want.Bal[k]
 				if g == nil {
@@ -1591,7 +1609,7 @@ func (m *machine) doBlock(dt int64) error {
 			if issuedFor[u] || pausedFor[u] { // charges (and failed charges) are C07's business
 				continue
 			}
-			for _, d := range []string{baseDenom, "btc", "eth"} {
+			for _, d := range []string{baseDenom, "btc", "eth", "usdt"} {
 				if err := cmp(key(m.user(u), d)); err != nil {
 					return err
 				}
@@ -1808,7 +1826,7 @@ func dedup(s []string) []string {
 
 // ---------------------------------------------------------------------------------------------
 
-const c07Rule = "rapid state machine on the K-driver (irismod blockers): define / bind (pricing grammar: base price, 0-2 time promotions around the block times, 0-3 ascending volume promotions, optionally priced in btc/eth through a harness rate source) / update / disable / enable / refund-deposit / set-withdraw-address / call (one-shot, repeated, module-owned with thresholds) / respond / pause / start / kill / update-context / withdraw / update-params (tax, slash, deposit rules) / blocks; <=5 providers, 2 owners, 4 consumers (2 poor); non-trivial = history with >=1 answered and >=1 expired request and >=1 request issued under a discount != 1; distinct by SHA-256 of the op list"
+const c07Rule = "rapid state machine on the K-driver (irismod blockers): define / bind (pricing grammar: base price, 0-2 time promotions around the block times, 0-3 ascending volume promotions, optionally priced in btc/eth/usdt through a harness rate source) / update / disable / enable / refund-deposit / set-withdraw-address / call (one-shot, repeated, module-owned with thresholds) / respond / pause / start / kill / update-context / withdraw / update-params (tax, slash, deposit rules) / blocks; <=5 providers, 2 owners, 4 consumers (2 poor); non-trivial = history with >=1 answered and >=1 expired request and >=1 request issued under a discount != 1; distinct by SHA-256 of the op list"
 
 const c08Rule = "same machine as C07 with the scheduling/outcome oracles: non-trivial = a repeated context with >=3 batches that was paused and resumed by its consumer, or a batch closed at expiry where some but not all providers had answered; distinct by SHA-256 of the op list"
 
